@@ -553,4 +553,8 @@ func c08(x *Ctx) {
 	} else {
 		c.Unresolved(rKey, "config.RulesBasedSamplerRule.String", "method not found")
 	}
+	// the untyped comparison keeps integers exact (shared with C09)
+	x.integerCompareExact("C08.integer-compare-exact")
+	// field extraction with the root. prefix: the stop-at-the-first-span shortcut is sound (shared with C09)
+	x.rootShortcutCarried("C08.root-shortcut-carried")
 }
